@@ -126,13 +126,19 @@ package server
 //@   assumes refDiscipline() && lockSame(lock)
 //@   modifies LockManagerLockQueue.fastIndex, LockManagerLockQueue.fastQueue, LockManagerLockQueue.scaleQueue, LockManager.refCount, LockQueue.*, Lock.aofTime, Lock.command, Lock.data, Lock.isAof, Lock.manager, Lock.protocol, Lock.refCount, E_LJPserver_Lock, E_Pserver_Lock, E_int32, MH_mapLL16JbyteJPserver_Lock, MV_mapLL16JbyteJPserver_Lock
 
+// the inline part of the holder queue is a FIFO over fastQueue[fastIndex:]: Pop takes the slot at the cursor (and clears it),
+// Head reads it, every other slot keeps its entry; only the frame of these two stays assumed (the map-backed part is a LockQueue, C20)
+//@ spec func holderInline(q) = !isnil(q.fastQueue) && q.fastIndex >= 0 && q.fastIndex < len(q.fastQueue)
 //@ func (*LockManagerLockQueue).Pop
 //@   trusted queue internals (holder queue), subject of C20
 //@   ensures forallref(l, Lock, lockSame(l))
+//@   ensures C20.holder.pop,C01.holder.pop,C04.holder.pop: implies(old(holderInline(self)), result == old(self.fastQueue[self.fastIndex]) && self.fastIndex == old(self.fastIndex) + 1 && self.fastQueue == old(self.fastQueue) && self.fastQueue[old(self.fastIndex)] == nil && forall(k, 0, len(self.fastQueue), implies(k != old(self.fastIndex), self.fastQueue[k] == old(self.fastQueue[k]))))
+//@   ensures C20.holder.pop-empty: implies(!old(holderInline(self)) && old(self.fastIndex) >= 0 && self.scaleQueue == nil, result == nil && self.fastIndex == old(self.fastIndex))
 //@   modifies LockManagerLockQueue.fastIndex, LockManagerLockQueue.fastQueue, LockQueue.*, E_LJPserver_Lock, E_Pserver_Lock, E_int32
 
 //@ func (*LockManagerLockQueue).Head
 //@   trusted queue internals (holder queue), subject of C20
+//@   ensures C20.holder.head,C01.holder.head,C04.holder.head: implies(holderInline(self), result == self.fastQueue[self.fastIndex]) && implies(!holderInline(self) && self.fastIndex >= 0 && self.scaleQueue == nil, result == nil)
 //@   modifies nothing
 
 // the holder lookup: sound (only a live hold of that LockId is returned) and complete over the inline part
@@ -150,24 +156,34 @@ package server
 
 //@ func (*LockManagerLockQueue).RemoveLock
 //@   trusted queue internals (holder queue), subject of C20
+//@   ensures C02.unindex.exact,C01.unindex.exact,C17.unindex.exact: implies(self.scaleQueue != nil, !has(self.scaleQueue.maps, command.LockId))
 //@   modifies MH_mapLL16JbyteJPserver_Lock
 
 //@ func (*LockManagerLockQueue).Resize
 //@   trusted queue internals (holder queue), subject of C20
 //@   modifies LockManagerLockQueue.fastIndex, LockManagerLockQueue.fastQueue, LockQueue.*, E_LJPserver_Lock, E_Pserver_Lock, E_int32
 
+// the wait queue's inline part mirrors the holder queue's: FIFO over fastQueue[fastIndex:], compaction keeps every live waiter
+// (not timed out, not ack-pending) in order at the next free slot and gives back the reference of every finished one
+//@ spec func waitInline(q) = !isnil(q.fastQueue) && q.fastIndex >= 0 && q.fastIndex < len(q.fastQueue)
 //@ func (*LockManagerWaitQueue).Push
 //@   trusted queue internals (wait queue), subject of C20 / C04 order
+//@   loop#1 invariant self.fastQueue == old(self.fastQueue) && implies(old(self.fastIndex) >= 0, 0 <= currentIndex && currentIndex <= i)
+//@   loop#1 backedge C20.wait.compact-keeps,C04.wait.compact-keeps: implies(old(self.fastIndex) >= 0 && queuedLock != nil && !queuedLock.timeouted && queuedLock.ackCount == 0xff, currentIndex == athead(currentIndex) + 1 && self.fastQueue[athead(currentIndex)] == queuedLock)
+//@   loop#1 backedge C17.wait.compact-releases: implies(queuedLock != nil && (athead(queuedLock.timeouted) || athead(queuedLock.ackCount) != 0xff), queuedLock.refCount == u8(athead(queuedLock.refCount) - 1) && currentIndex == athead(currentIndex) && implies(queuedLock.refCount == 0, calls(FreeLock) == athead(calls(FreeLock)) + 1))
 //@   assumes refDiscipline() && lockSame(lock)
 //@   modifies LockManagerWaitQueue.*, LockManagerRingQueue.*, LockManagerPriorityRingQueue.*, LockManagerPriorityRingQueueNode.*, LockManager.refCount, LockQueue.*, Lock.aofTime, Lock.command, Lock.data, Lock.isAof, Lock.manager, Lock.protocol, Lock.refCount, E_LJPserver_Lock, E_Pserver_Lock, E_Pserver_LockManagerPriorityRingQueueNode, E_int32
 
 //@ func (*LockManagerWaitQueue).Pop
 //@   trusted queue internals (wait queue), subject of C20
 //@   ensures forallref(l, Lock, lockSame(l))
+//@   ensures C20.wait.pop,C04.wait.pop: implies(old(waitInline(self)), result == old(self.fastQueue[self.fastIndex]) && self.fastIndex == old(self.fastIndex) + 1 && self.fastQueue == old(self.fastQueue) && self.fastQueue[old(self.fastIndex)] == nil && forall(k, 0, len(self.fastQueue), implies(k != old(self.fastIndex), self.fastQueue[k] == old(self.fastQueue[k]))))
+//@   ensures C20.wait.pop-ring,C04.wait.pop-ring: implies(!old(waitInline(self)), self.fastIndex == old(self.fastIndex) && implies(isnil(self.ringQueue), result == nil) && implies(!isnil(self.ringQueue), calls(Pop) == 1))
 //@   modifies LockManagerWaitQueue.*, LockManagerRingQueue.*, LockManagerPriorityRingQueue.*, LockManagerPriorityRingQueueNode.*, E_LJPserver_Lock, E_Pserver_Lock, E_Pserver_LockManagerPriorityRingQueueNode, E_int32
 
 //@ func (*LockManagerWaitQueue).Head
 //@   trusted queue internals (wait queue), subject of C20
+//@   ensures C20.wait.head,C04.wait.head: implies(waitInline(self), result == self.fastQueue[self.fastIndex]) && implies(!waitInline(self) && isnil(self.ringQueue), result == nil)
 //@   modifies nothing
 
 //@ func (*LockManagerWaitQueue).MaxPriority
